@@ -1272,6 +1272,10 @@ func (s *server) SampleRowKeys(req *btpb.SampleRowKeysRequest, stream btpb.Bigta
 	var err error
 	var lastRow *btpb.Row
 	tbl.rows.Ascend(func(r *btpb.Row) bool {
+		if len(r.Families) == 0 {
+			// Rows left without cells (dropped family, GC) are not visible to ReadRows; don't sample them either.
+			return true
+		}
 		if rand.Int31n(100) == 0 {
 			resp := &btpb.SampleRowKeysResponse{
 				RowKey:      r.Key,
